@@ -26,7 +26,7 @@ var c18Starts = []int{-1, 0, 1, 31, 32, 33} // -1: zero value new(BitList)
 
 func (c18) Gen(tier string, seed int64) []fw.Unit {
 	var us []fw.Unit
-	depth := int64(5)
+	depth := int64(6)
 	if tier == "thorough" {
 		depth = 7
 	}
@@ -36,7 +36,7 @@ func (c18) Gen(tier string, seed int64) []fw.Unit {
 		}
 	}
 	r := rngFor(seed, "C18")
-	nrand := 64
+	nrand := 160
 	maxOps := 20000
 	if tier == "thorough" {
 		nrand = 400
